@@ -1,17 +1,51 @@
-//! C14 - not built yet.
-use crate::engine::{PropertyInfo, RunCtx};
+//! C14 - the language server keeps the same document text as the editor.
+//!
+//! Black box over stdio against the real `trust-lsp` binary. The harness plays the editor:
+//! it keeps its own buffer, picks ranges on character boundaries, expresses them as LSP
+//! positions (line, UTF-16 column), applies each change to its buffer and sends it
+//! (incremental, multi-change and full-text notifications; columns past the end of a line,
+//! which LSP says clamp to the line end). Differential oracle: document A =
+//! didOpen(s0) + the changes, document B = didOpen(final buffer); semanticTokens/full,
+//! documentSymbol, foldingRange, formatting and pull diagnostics of A and B must be equal
+//! modulo URI (published diagnostics are collected and labelled only: the server writes
+//! them independently of responses and may truncate them, see `query`). Absolute oracle (offset -> position direction): every
+//! semantic token, symbol range, formatting range and diagnostic position the server
+//! reports must denote, in UTF-16 units, the place in the editor's text that the harness
+//! computes with its own reference conversion.
+
+pub mod lspc;
+
+use std::cell::Cell;
+
+use proptest::prelude::*;
+use serde::{Deserialize, Serialize};
+use serde_json::{json, Value as J};
+use trust_syntax::lexer::lex;
+
+use crate::engine::tape::{tape_strategy, Reader, Tape};
+use crate::engine::{Probe, PropertyInfo, RunCtx, Tier};
+
+use lspc::{
+    line_content_end, line_starts, offset_to_position, position_to_offset, scrub_uri, settle,
+    utf16_len, LspError, Pool, Server, StartOpts,
+};
 
 pub fn info() -> PropertyInfo {
     PropertyInfo {
         id: "C14",
         level: "exploration",
-        rule: "not built yet",
-        assumptions: &[],
-        workers_quick: 1,
-        workers_thorough: 1,
+        rule: "case = initial text (ST snippets with ASCII/Latin-1/CJK/combining/astral characters in comments, strings and stray code; LF, CRLF, mixed; with/without final newline) + 1-12 didChange notifications of 1-3 changes (insert/delete/replace on char boundaries expressed in UTF-16 columns, columns past end of line, full-text changes) sent to the real trust-lsp binary; non-trivial = at least one incremental change whose start lies on a line after a character with len_utf8 != 1 (label edit:after-astral when len_utf16 == 2); distinct by SHA-256 of the case",
+        assumptions: &[
+            "line terminators are LF and CRLF only (no lone CR; VS Code normalises those on load); every generated position is on a character boundary and never between CR and LF; lines beyond the last line are not generated (LSP leaves them undefined)",
+            "a column beyond the end of a line denotes the end of the line's content, before CR LF (LSP 3.17 Position: 'defaults back to the line length'; line endings are not part of the line)",
+            "only what the server reveals through answers is compared (tokens, symbols, folding ranges, formatting echo, diagnostics); documents A and B live one after the other in the same server process (thorough: B also in a second process)",
+            "identifiers are ASCII (the lexer rejects others); non-ASCII text sits in comments, string literals, pragmas and as stray characters in code",
+        ],
+        workers_quick: 8,
+        workers_thorough: 8,
         address_space_limit: 0,
-        watchdog_quick_s: 600,
-        watchdog_thorough_s: 3600,
+        watchdog_quick_s: 900,
+        watchdog_thorough_s: 7200,
         run,
     }
 }
@@ -21,6 +55,822 @@ pub fn helper(_args: &[String]) -> Option<i32> {
     None
 }
 
+// ---- case ------------------------------------------------------------------------------
+
+#[derive(Clone, Debug, Serialize, Deserialize, PartialEq, Eq)]
+pub struct Pos {
+    pub line: u32,
+    pub ch: u32,
+}
+
+#[derive(Clone, Debug, Serialize, Deserialize, PartialEq, Eq)]
+pub enum Change {
+    Full { text: String },
+    Edit { start: Pos, end: Pos, text: String },
+}
+
+#[derive(Clone, Debug, Serialize, Deserialize, PartialEq, Eq)]
+pub struct Case {
+    pub s0: String,
+    /// didChange notifications, each with its content changes (applied in order to the
+    /// evolving text, as LSP prescribes).
+    pub notes: Vec<Vec<Change>>,
+}
+
+// ---- generator -------------------------------------------------------------------------
+
+const ASTRAL: &[&str] = &["\u{1F600}", "\u{1D4B3}", "\u{20000}", "\u{1F1F8}\u{1F1EA}", "\u{1F469}\u{200D}\u{1F4BB}", "\u{1F9EA}"];
+const BMP3: &[&str] = &["\u{4E2D}", "\u{6587}", "\u{65E5}\u{672C}\u{8A9E}", "\u{20AC}", "\u{2028}", "\u{FEFF}", "\u{D55C}"];
+const BMP2: &[&str] = &["\u{E9}", "\u{FC}", "\u{DF}", "\u{3A9}", "\u{436}", "\u{D7}", "\u{A0}"];
+const COMBINING: &[&str] = &["e\u{301}", "a\u{308}\u{323}", "\u{301}", "n\u{303}"];
+const PLAIN: &[&str] = &["a", "note", "x1", " ", "~", "TODO"];
+
+pub fn uni_run(r: &mut Reader) -> String {
+    let n = 1 + r.pick(4);
+    let mut s = String::new();
+    for _ in 0..n {
+        let piece = match r.weighted(&[2, 2, 3, 2, 4]) {
+            0 => *r.choose(PLAIN),
+            1 => *r.choose(BMP2),
+            2 => *r.choose(BMP3),
+            3 => *r.choose(COMBINING),
+            _ => *r.choose(ASTRAL),
+        };
+        s.push_str(piece);
+    }
+    s
+}
+
+fn lead(r: &mut Reader) -> String {
+    match r.weighted(&[3, 4, 1]) {
+        0 => String::new(),
+        1 => format!("(* {} *) ", uni_run(r)),
+        _ => format!("{{{}}} ", uni_run(r)),
+    }
+}
+
+fn trail(r: &mut Reader) -> String {
+    match r.weighted(&[3, 2, 2]) {
+        0 => String::new(),
+        1 => format!(" // {}", uni_run(r)),
+        _ => format!(" (* {} *)", uni_run(r)),
+    }
+}
+
+fn decl_line(r: &mut Reader, i: usize) -> String {
+    match r.pick(6) {
+        0 => format!("  x{i} : INT;"),
+        1 => format!("  {}y{i} : INT := 1;{}", lead(r), trail(r)),
+        2 => format!("  s{i} : STRING := '{}'; {}z{i} : BOOL;", uni_run(r), lead(r)),
+        3 => format!("  w{i} : WSTRING := \"{}\";{}", uni_run(r), trail(r)),
+        4 => format!("  a{i} : ARRAY[0..3] OF INT;{}", trail(r)),
+        _ => format!("  {}b{i} : BOOL; c{i} : REAL := 1.5;{}", lead(r), trail(r)),
+    }
+}
+
+fn stmt_lines(r: &mut Reader, i: usize, out: &mut Vec<String>) {
+    match r.pick(9) {
+        0 => out.push(format!("x{i} := x{i} + 1;")),
+        1 => out.push(format!("{}x{i} := 2; {}y{i} := x{i};{}", lead(r), lead(r), trail(r))),
+        2 => out.push(format!("s{i} := '{}'; x{i} := LEN(s{i});{}", uni_run(r), trail(r))),
+        3 => {
+            out.push(format!("IF x{i} > 0 THEN{}", trail(r)));
+            out.push(format!("  {}y{i} := 1;{}", lead(r), trail(r)));
+            out.push("END_IF;".to_string());
+        }
+        4 => {
+            out.push(format!("{}FOR x{i} := 1 TO 3 DO", lead(r)));
+            out.push(format!("  y{i} := y{i} + x{i};{}", trail(r)));
+            out.push(format!("END_FOR;{}", trail(r)));
+        }
+        5 => out.push(format!("{} x{i} := 1;", uni_run(r))), // stray characters in code
+        6 => {
+            out.push(format!("(* {}", uni_run(r)));
+            out.push(format!(" {} *) x{i} := 4;{}", uni_run(r), trail(r)));
+        }
+        7 => out.push(format!("{}b{i} := NOT b{i}; (* {} *) c{i} := c{i} * 2.0;", lead(r), uni_run(r))),
+        _ => out.push(format!("w{i} := \"{}\";{}", uni_run(r), trail(r))),
+    }
+}
+
+fn gen_lines(r: &mut Reader) -> Vec<String> {
+    let mut out = Vec::new();
+    let pous = 1 + r.pick(2);
+    for p in 0..pous {
+        match r.weighted(&[4, 2, 2, 2]) {
+            0 | 1 => {
+                let (kw, end, name) = if r.flag() {
+                    ("PROGRAM", "END_PROGRAM", format!("P{p}"))
+                } else {
+                    ("FUNCTION_BLOCK", "END_FUNCTION_BLOCK", format!("FB{p}"))
+                };
+                out.push(format!("{}{kw} {name}{}", lead(r), trail(r)));
+                out.push(format!("VAR{}", trail(r)));
+                for i in 0..1 + r.pick(3) {
+                    out.push(decl_line(r, i));
+                }
+                out.push("END_VAR".to_string());
+                for i in 0..1 + r.pick(4) {
+                    stmt_lines(r, i, &mut out);
+                }
+                out.push(format!("{}{end}{}", lead(r), trail(r)));
+            }
+            2 => {
+                out.push(format!("{}FUNCTION F{p} : INT{}", lead(r), trail(r)));
+                out.push("VAR_INPUT".to_string());
+                out.push(decl_line(r, 0));
+                out.push("END_VAR".to_string());
+                out.push(format!("{}F{p} := 1;{}", lead(r), trail(r)));
+                out.push("END_FUNCTION".to_string());
+            }
+            _ => {
+                if r.flag() {
+                    out.push(format!(
+                        "TYPE {}E{p} : (A{p}, {}B{p}); END_TYPE{}",
+                        lead(r),
+                        lead(r),
+                        trail(r)
+                    ));
+                } else {
+                    out.push(format!("{}TYPE S{p} :", lead(r)));
+                    out.push(format!("STRUCT{}", trail(r)));
+                    out.push(format!("  {}f{p} : INT;{}", lead(r), trail(r)));
+                    out.push("END_STRUCT".to_string());
+                    out.push(format!("END_TYPE{}", trail(r)));
+                }
+            }
+        }
+        if r.weighted(&[3, 1]) == 1 {
+            out.push(String::new());
+        }
+    }
+    out
+}
+
+/// eol_mode: 0 = LF, 1 = CRLF, 2 = mixed.
+pub fn gen_text(r: &mut Reader, eol_mode: usize) -> String {
+    let lines = gen_lines(r);
+    let final_newline = r.chance(2, 3);
+    let mut s = String::new();
+    let n = lines.len();
+    for (i, l) in lines.into_iter().enumerate() {
+        s.push_str(&l);
+        if i + 1 < n || final_newline {
+            let crlf = match eol_mode {
+                0 => false,
+                1 => true,
+                _ => r.flag(),
+            };
+            s.push_str(if crlf { "\r\n" } else { "\n" });
+        }
+    }
+    s
+}
+
+fn first_wide(text: &str, start: usize, end: usize) -> Option<usize> {
+    text[start..end]
+        .char_indices()
+        .find(|(_, c)| c.len_utf8() != 1)
+        .map(|(i, c)| start + i + c.len_utf8())
+}
+
+/// Character boundaries of the line's content within [from, content end].
+fn boundaries(text: &str, from: usize, end: usize) -> Vec<usize> {
+    let mut v: Vec<usize> = text[from..end].char_indices().map(|(i, _)| from + i).collect();
+    v.push(end);
+    v
+}
+
+/// Advance `k` characters from `at`; never stop between CR and LF.
+fn advance_chars(text: &str, at: usize, k: usize) -> usize {
+    let mut off = at;
+    for c in text[at..].chars().take(k) {
+        off += c.len_utf8();
+    }
+    let b = text.as_bytes();
+    if off > 0 && off < text.len() && b[off - 1] == b'\r' && b[off] == b'\n' {
+        off += 1;
+    }
+    off
+}
+
+fn lsp_pos(text: &str, offset: usize, r: &mut Reader) -> Pos {
+    let (line, mut ch) = offset_to_position(text, offset);
+    // a column beyond the end of the line denotes the end of the line
+    let ls = line_starts(text)[line as usize];
+    if offset == line_content_end(text, ls) && r.weighted(&[2, 1]) == 1 {
+        let extra = *r.choose(&[1u32, 2, 7, 100_000, u32::MAX]);
+        ch = ch.saturating_add(extra);
+    }
+    Pos { line, ch }
+}
+
+fn insert_text(r: &mut Reader, eol: &str) -> String {
+    match r.weighted(&[5, 4, 3, 2, 2]) {
+        0 => uni_run(r),
+        1 => r
+            .choose(&["x", "1", " ", ";", " := ", "y := 2;", "(* c *)", "abc_1", "'", "(*", "*)", "//", "\t"])
+            .to_string(),
+        2 => match r.pick(3) {
+            0 => eol.to_string(),
+            1 => format!("{eol}  "),
+            _ => format!("{eol}{eol}"),
+        },
+        3 => format!("IF x THEN (* {} *){eol}  y := 1;{eol}END_IF;", uni_run(r)),
+        _ => match r.pick(3) {
+            0 => format!("(* {} *)", uni_run(r)),
+            1 => format!("'{}'", uni_run(r)),
+            _ => format!("// {}{eol}", uni_run(r)),
+        },
+    }
+}
+
+/// The initial text and the change history are drawn from separate tapes, so that a long
+/// text cannot starve the history of choices (an exhausted tape yields only the simplest
+/// choice: a one-character ASCII insertion).
+pub fn case_from_tapes(text_tape: &Tape, tape: &Tape) -> Case {
+    let mut tr = Reader::new(text_tape);
+    let eol_mode = tr.weighted(&[5, 3, 2]);
+    let s0 = gen_text(&mut tr, eol_mode);
+    let mut r = Reader::new(tape);
+    let mut buf = s0.clone();
+    let n_notes = 1 + r.weighted(&[4, 4, 3, 3, 2, 2, 1, 1, 1, 1, 1, 1]);
+    let mut notes = Vec::new();
+    for _ in 0..n_notes {
+        let n_changes = 1 + r.weighted(&[5, 3, 2]);
+        let mut changes = Vec::new();
+        for _ in 0..n_changes {
+            let main_eol = if eol_mode == 1 { "\r\n" } else { "\n" };
+            let eol = if r.weighted(&[7, 1]) == 1 {
+                if main_eol == "\n" {
+                    "\r\n"
+                } else {
+                    "\n"
+                }
+            } else {
+                main_eol
+            };
+            // (rare alternative in the middle: tape words are biased towards 0 and u32::MAX)
+            if r.weighted(&[17, 1, 13]) == 1 {
+                // full-text change: a fresh text, or the buffer with another line-ending style
+                let text = if r.flag() {
+                    gen_text(&mut r, eol_mode)
+                } else if buf.contains("\r\n") {
+                    buf.replace("\r\n", "\n")
+                } else {
+                    buf.replace('\n', "\r\n")
+                };
+                buf = text.clone();
+                changes.push(Change::Full { text });
+                continue;
+            }
+            let starts = line_starts(&buf);
+            let wide: Vec<(usize, usize, usize)> = starts
+                .iter()
+                .filter_map(|&ls| {
+                    let le = line_content_end(&buf, ls);
+                    first_wide(&buf, ls, le).map(|fw| (ls, le, fw))
+                })
+                .collect();
+            let start = if !wide.is_empty() && r.chance(2, 3) {
+                let (_, le, fw) = wide[r.pick(wide.len())];
+                let b = boundaries(&buf, fw, le);
+                b[r.pick(b.len())]
+            } else {
+                let ls = starts[r.pick(starts.len())];
+                let le = line_content_end(&buf, ls);
+                let b = boundaries(&buf, ls, le);
+                b[r.pick(b.len())]
+            };
+            let op = r.weighted(&[4, 3, 3]); // insert, delete, replace
+            let end = if op == 0 {
+                start
+            } else {
+                match r.weighted(&[5, 2, 2, 1]) {
+                    0 => {
+                        // a few characters, staying on the line
+                        let ls = *starts.iter().rev().find(|&&s| s <= start).unwrap_or(&0);
+                        let le = line_content_end(&buf, ls);
+                        advance_chars(&buf, start, 1 + r.pick(6)).min(le)
+                    }
+                    1 => {
+                        let ls = *starts.iter().rev().find(|&&s| s <= start).unwrap_or(&0);
+                        line_content_end(&buf, ls)
+                    }
+                    2 => advance_chars(&buf, start, 1 + r.pick(60)),
+                    _ => buf.len(),
+                }
+            };
+            let text = if op == 1 { String::new() } else { insert_text(&mut r, eol) };
+            let sp = lsp_pos(&buf, start, &mut r);
+            // an empty range is sent with start == end (an editor never sends start > end)
+            let ep = if end == start { sp.clone() } else { lsp_pos(&buf, end, &mut r) };
+            buf.replace_range(start..end, &text);
+            changes.push(Change::Edit { start: sp, end: ep, text });
+        }
+        notes.push(changes);
+    }
+    Case { s0, notes }
+}
+
+// ---- model (the editor) -------------------------------------------------------------------
+
+#[derive(Default)]
+struct Facts {
+    after_astral: bool,
+    after_bmp: bool,
+    after_combining: bool,
+    ascii_line_edit: bool,
+    past_eol: bool,
+    past_eol_crlf: bool,
+    full: bool,
+    multi: bool,
+    multiline_edit: bool,
+    edits: usize,
+}
+
+/// Apply one change to the editor buffer per the LSP rules. None = a position names a
+/// line that does not exist (not generated; only possible in a hand-written replay).
+fn apply_change(buf: &mut String, ch: &Change, facts: &mut Facts) -> Option<()> {
+    match ch {
+        Change::Full { text } => {
+            *buf = text.clone();
+            facts.full = true;
+        }
+        Change::Edit { start, end, text } => {
+            let s = position_to_offset(buf, start.line, start.ch)?;
+            let e = position_to_offset(buf, end.line, end.ch)?;
+            if s > e {
+                return None;
+            }
+            facts.edits += 1;
+            let ls = line_starts(buf)[start.line as usize];
+            let before = &buf[ls..s];
+            if before.chars().any(|c| c.len_utf16() == 2) {
+                facts.after_astral = true;
+            }
+            if before.chars().any(|c| c.len_utf8() > 1 && c.len_utf16() == 1) {
+                facts.after_bmp = true;
+            }
+            if before.chars().any(|c| ('\u{300}'..='\u{36f}').contains(&c)) {
+                facts.after_combining = true;
+            }
+            if before.is_ascii() {
+                facts.ascii_line_edit = true;
+            }
+            for p in [start, end] {
+                let (_, real) = offset_to_position(buf, position_to_offset(buf, p.line, p.ch)?);
+                if p.ch > real {
+                    facts.past_eol = true;
+                    let off = position_to_offset(buf, p.line, p.ch)?;
+                    if buf[off..].starts_with("\r\n") {
+                        facts.past_eol_crlf = true;
+                    }
+                }
+            }
+            if start.line != end.line || text.contains('\n') {
+                facts.multiline_edit = true;
+            }
+            buf.replace_range(s..e, text);
+        }
+    }
+    Some(())
+}
+
+fn change_json(ch: &Change) -> J {
+    match ch {
+        Change::Full { text } => json!({"text": text}),
+        Change::Edit { start, end, text } => json!({
+            "range": {
+                "start": {"line": start.line, "character": start.ch},
+                "end": {"line": end.line, "character": end.ch},
+            },
+            "text": text,
+        }),
+    }
+}
+
+// ---- talking to the server ------------------------------------------------------------------
+
+#[derive(Debug)]
+struct Answers {
+    tokens: J,
+    symbols: J,
+    folding: J,
+    formatting: J,
+    diag_pull: J,
+    diag_push: J,
+}
+
+fn strip_result_id(v: &J) -> J {
+    match v {
+        J::Object(o) => {
+            let mut m = o.clone();
+            m.remove("resultId");
+            J::Object(m)
+        }
+        other => other.clone(),
+    }
+}
+
+fn query(s: &mut Server, uri: &str, publishes: u64) -> Result<Answers, LspError> {
+    let tokens = s.doc_request("textDocument/semanticTokens/full", uri)?;
+    let symbols = s.doc_request("textDocument/documentSymbol", uri)?;
+    let folding = s.doc_request("textDocument/foldingRange", uri)?;
+    let formatting = s.request(
+        "textDocument/formatting",
+        json!({"textDocument": {"uri": uri}, "options": {"tabSize": 4, "insertSpaces": true}}),
+    )?;
+    let diag_pull = s.doc_request("textDocument/diagnostic", uri)?;
+    // Published diagnostics are a statistic only, never part of the verdict: the server
+    // writes them to the wire independently of responses, re-publishes from other handlers
+    // and truncates a computation that another thread "cancelled", so the latest one seen
+    // is not reliably the one for the final text. One is expected per didOpen / applied
+    // didChange; Null = fewer than that have arrived by now.
+    let published = s.wait_publish(uri, publishes, std::time::Duration::from_millis(0))?;
+    let diag_push = published.and_then(|p| p.get("diagnostics").cloned()).unwrap_or(J::Null);
+    Ok(Answers {
+        tokens: scrub_uri(&tokens.get("data").cloned().unwrap_or(tokens.clone()), uri),
+        symbols: scrub_uri(&symbols, uri),
+        folding: scrub_uri(&folding, uri),
+        formatting: scrub_uri(&formatting, uri),
+        diag_pull: scrub_uri(&strip_result_id(&diag_pull), uri),
+        diag_push: scrub_uri(&diag_push, uri),
+    })
+}
+
+fn run_a(s: &mut Server, uri: &str, case: &Case) -> Result<Answers, LspError> {
+    s.did_open(uri, 1, &case.s0)?;
+    let mut version = 1;
+    for note in &case.notes {
+        version += 1;
+        let changes: Vec<J> = note.iter().map(change_json).collect();
+        s.did_change(uri, version, J::Array(changes))?;
+    }
+    let a = query(s, uri, 1 + case.notes.len() as u64);
+    s.close_and_forget(uri)?;
+    a
+}
+
+fn run_b(s: &mut Server, uri: &str, text: &str) -> Result<Answers, LspError> {
+    s.did_open(uri, 1, text)?;
+    let a = query(s, uri, 1);
+    s.close_and_forget(uri)?;
+    a
+}
+
+pub fn clip(s: &str, n: usize) -> String {
+    if s.len() <= n {
+        return s.to_string();
+    }
+    let mut end = n;
+    while !s.is_char_boundary(end) {
+        end -= 1;
+    }
+    format!("{}...[{} bytes]", &s[..end], s.len())
+}
+
+fn first_diff(a: &J, b: &J) -> String {
+    match (a, b) {
+        (J::Array(x), J::Array(y)) => {
+            for (i, (p, q)) in x.iter().zip(y.iter()).enumerate() {
+                if p != q {
+                    return format!("[{i}] {}", first_diff(p, q));
+                }
+            }
+            format!("lengths {} vs {}", x.len(), y.len())
+        }
+        (J::Object(x), J::Object(y)) => {
+            for (k, p) in x {
+                match y.get(k) {
+                    Some(q) if p == q => {}
+                    Some(q) => return format!(".{k} {}", first_diff(p, q)),
+                    None => return format!(".{k} missing on the right"),
+                }
+            }
+            "right side has extra keys".to_string()
+        }
+        (J::String(x), J::String(y)) => {
+            let at = x.bytes().zip(y.bytes()).position(|(p, q)| p != q).unwrap_or(x.len().min(y.len()));
+            let lo = {
+                let mut i = at.saturating_sub(20);
+                while !x.is_char_boundary(i) {
+                    i -= 1;
+                }
+                i
+            };
+            format!(
+                "strings differ at byte {at}: {:?} vs {:?}",
+                clip(&x[lo..], 60),
+                clip(y.get(lo..).unwrap_or(""), 60)
+            )
+        }
+        _ => format!("{} vs {}", clip(&a.to_string(), 120), clip(&b.to_string(), 120)),
+    }
+}
+
+// ---- absolute oracle: offset -> position -------------------------------------------------
+
+/// `Some(offset)` when (line, ch) is an exact position of `text` (exists, on a character
+/// boundary, not beyond the line's content).
+pub fn exact_offset(text: &str, line: u64, ch: u64) -> Option<usize> {
+    let (line, ch) = (u32::try_from(line).ok()?, u32::try_from(ch).ok()?);
+    let off = position_to_offset(text, line, ch)?;
+    (offset_to_position(text, off) == (line, ch)).then_some(off)
+}
+
+pub fn pos_of(v: &J) -> Option<(u64, u64)> {
+    Some((v.get("line")?.as_u64()?, v.get("character")?.as_u64()?))
+}
+
+fn check_absolute(text: &str, ans: &Answers, probe: &mut Probe) -> Result<(), String> {
+    let toks: Vec<(usize, usize)> = lex(text)
+        .into_iter()
+        .map(|t| (usize::from(t.range.start()), usize::from(t.range.end())))
+        .collect();
+    // semantic tokens
+    if let Some(data) = ans.tokens.as_array() {
+        if data.len() % 5 != 0 {
+            return Err(format!("semanticTokens data length {} is not a multiple of 5", data.len()));
+        }
+        let (mut line, mut col) = (0u64, 0u64);
+        let mut wide_seen = false;
+        for (i, t) in data.chunks(5).enumerate() {
+            let n: Vec<u64> = t.iter().map(|x| x.as_u64().unwrap_or(u64::MAX)).collect();
+            if n[0] > 0 {
+                line += n[0];
+                col = n[1];
+            } else {
+                col += n[1];
+            }
+            let Some(off) = exact_offset(text, line, col) else {
+                return Err(format!(
+                    "semantic token {i} is reported at line {line} character {col}, which is not a position of the editor's text (line content: {:?})",
+                    line_of(text, line)
+                ));
+            };
+            let Ok(ix) = toks.binary_search_by_key(&off, |t| t.0) else {
+                return Err(format!(
+                    "semantic token {i} at line {line} character {col} (UTF-16) does not start at a token of the editor's text (line content: {:?})",
+                    line_of(text, line)
+                ));
+            };
+            let tok_text = &text[toks[ix].0..toks[ix].1];
+            if !tok_text.contains('\n') {
+                let want = utf16_len(tok_text) as u64;
+                if !tok_text.is_ascii() {
+                    wide_seen = true;
+                }
+                if n[2] != want {
+                    return Err(format!(
+                        "semantic token {i} at line {line} character {col} covers {:?} = {want} UTF-16 units, but its reported length is {}",
+                        clip(tok_text, 60),
+                        n[2]
+                    ));
+                }
+            }
+        }
+        if wide_seen {
+            probe.label("abs:token-with-non-ascii-text");
+        }
+    }
+    // document symbols (flat SymbolInformation): the range denotes the name in the editor's text
+    if let Some(syms) = ans.symbols.as_array() {
+        for s in syms {
+            let name = s.get("name").and_then(J::as_str).unwrap_or("");
+            let head = name.split(" (").next().unwrap_or(name);
+            let range = s.pointer("/location/range").or_else(|| s.get("selectionRange"));
+            let Some(range) = range else { continue };
+            let (Some(st), Some(en)) = (range.get("start").and_then(pos_of), range.get("end").and_then(pos_of)) else {
+                continue;
+            };
+            let so = exact_offset(text, st.0, st.1);
+            let eo = exact_offset(text, en.0, en.1);
+            let found = match (so, eo) {
+                (Some(a), Some(b)) if a <= b => Some(&text[a..b]),
+                _ => None,
+            };
+            match found {
+                Some(t) if t.eq_ignore_ascii_case(head) => {
+                    let ls = line_starts(text)[st.0 as usize];
+                    if !text[ls..so.unwrap()].is_ascii() {
+                        probe.label("abs:symbol-after-non-ascii");
+                    }
+                }
+                other => {
+                    return Err(format!(
+                        "symbol {name:?} is reported at {}:{}-{}:{} (UTF-16), where the editor's text has {:?} (line content: {:?})",
+                        st.0, st.1, en.0, en.1, other, line_of(text, st.0)
+                    ));
+                }
+            }
+        }
+    }
+    // formatting: one whole-document edit
+    if let Some(edits) = ans.formatting.as_array() {
+        if let Some(e) = edits.first() {
+            let st = e.pointer("/range/start").and_then(pos_of);
+            let en = e.pointer("/range/end").and_then(pos_of);
+            let (el, ec) = offset_to_position(text, text.len());
+            if st != Some((0, 0)) || en != Some((el as u64, ec as u64)) {
+                return Err(format!(
+                    "formatting edit covers {st:?}..{en:?}, the editor's document is (0,0)..({el},{ec})"
+                ));
+            }
+        }
+    }
+    // diagnostics: positions exist in the editor's text (lenient about the column after CR)
+    for (what, d) in [("pull", ans.diag_pull.get("items")), ("published", Some(&ans.diag_push))] {
+        let Some(items) = d.and_then(J::as_array) else { continue };
+        for item in items {
+            for end in ["start", "end"] {
+                let Some((l, c)) = item.pointer(&format!("/range/{end}")).and_then(pos_of) else {
+                    continue;
+                };
+                let starts = line_starts(text);
+                let ok = (l as usize) < starts.len() && {
+                    let ls = starts[l as usize];
+                    let le = line_content_end(text, ls);
+                    let len = utf16_len(&text[ls..le]) as u64;
+                    let crlf = text[le..].starts_with("\r\n");
+                    exact_offset(text, l, c).is_some() || (crlf && c == len + 1)
+                };
+                if !ok {
+                    return Err(format!(
+                        "{what} diagnostic {:?} has its range {end} at line {l} character {c}, which is not a position of the editor's text (line content: {:?})",
+                        item.get("message").and_then(J::as_str).unwrap_or(""),
+                        line_of(text, l)
+                    ));
+                }
+            }
+        }
+    }
+    Ok(())
+}
+
+fn line_of(text: &str, line: u64) -> String {
+    let starts = line_starts(text);
+    match starts.get(line as usize) {
+        Some(&ls) => clip(&text[ls..line_content_end(text, ls)], 100),
+        None => format!("<no line {line}; the text has {} lines>", starts.len()),
+    }
+}
+
+// ---- the property ----------------------------------------------------------------------------
+
+struct Env {
+    pool: Pool,
+    /// second server process for document B (thorough tier)
+    pool_b: Option<Pool>,
+    worker: usize,
+    counter: Cell<u64>,
+}
+
+fn check_case(case: &Case, probe: &mut Probe, env: &Env) -> Result<(), String> {
+    // the editor's side
+    let mut buf = case.s0.clone();
+    let mut facts = Facts::default();
+    for note in &case.notes {
+        if note.len() > 1 {
+            facts.multi = true;
+        }
+        for ch in note {
+            if apply_change(&mut buf, ch, &mut facts).is_none() {
+                probe.label("skipped:position-on-missing-line");
+                return Ok(());
+            }
+        }
+    }
+    let lone_cr = |t: &str| t.replace("\r\n", "").contains('\r');
+    if lone_cr(&case.s0) || lone_cr(&buf) {
+        probe.label("skipped:lone-cr");
+        return Ok(());
+    }
+    let eol = match (case.s0.contains("\r\n"), case.s0.replace("\r\n", "").contains('\n')) {
+        (true, true) => "eol=mixed",
+        (true, false) => "eol=crlf",
+        _ => "eol=lf",
+    };
+    probe.label(eol);
+    for (flag, name) in [
+        (facts.after_astral, "edit:after-astral"),
+        (facts.after_bmp, "edit:after-bmp-nonascii"),
+        (facts.after_combining, "edit:after-combining"),
+        (facts.ascii_line_edit, "edit:on-ascii-prefix"),
+        (facts.past_eol, "pos:past-eol"),
+        (facts.past_eol_crlf, "pos:past-eol-crlf"),
+        (facts.full, "change:full"),
+        (facts.multi, "note:multi-change"),
+        (facts.multiline_edit, "edit:multi-line"),
+    ] {
+        if flag {
+            probe.label(name);
+        }
+    }
+    probe.label(format!("notes={}", match case.notes.len() {
+        0 => "0",
+        1 => "1",
+        2..=4 => "2-4",
+        _ => "5-12",
+    }));
+
+    let k = env.counter.get();
+    env.counter.set(k + 1);
+    let uri_a = format!("file:///tpv-c14/w{}/k{k}/a/unit.st", env.worker);
+    let uri_b = format!("file:///tpv-c14/w{}/k{k}/b/unit.st", env.worker);
+
+    let Some(a) = settle(env.pool.with(|s| run_a(s, &uri_a, case)))? else {
+        probe.label("skipped:infrastructure");
+        return Ok(());
+    };
+    let b_pool = match &env.pool_b {
+        Some(p) if k % 2 == 1 => {
+            probe.label("b=second-process");
+            p
+        }
+        _ => &env.pool,
+    };
+    let Some(b) = settle(b_pool.with(|s| run_b(s, &uri_b, &buf)))? else {
+        probe.label("skipped:infrastructure");
+        return Ok(());
+    };
+
+    if facts.after_astral || facts.after_bmp || facts.after_combining {
+        let key = serde_json::to_vec(case).unwrap_or_default();
+        probe.nontrivial(&key);
+        probe.sample(json!({
+            "s0": clip(&case.s0, 160),
+            "notifications": case.notes.len(),
+            "first_change": case.notes.first().and_then(|n| n.first()).map(|c| clip(&format!("{c:?}"), 160)),
+            "final": clip(&buf, 160),
+        }));
+    }
+    for (who, ans) in [("a", &a), ("b", &b)] {
+        let pulled = ans.diag_pull.get("items").cloned().unwrap_or(J::Null);
+        if ans.diag_push.is_null() {
+            probe.label(format!("push({who}):not-all-arrived-yet"));
+        } else if ans.diag_push == pulled {
+            probe.label(format!("push({who})=pull"));
+        } else {
+            probe.label(format!("push({who})!=pull(stale-or-truncated)"));
+        }
+    }
+
+    for (what, x, y) in [
+        ("textDocument/formatting", &a.formatting, &b.formatting),
+        ("textDocument/semanticTokens/full", &a.tokens, &b.tokens),
+        ("textDocument/documentSymbol", &a.symbols, &b.symbols),
+        ("textDocument/foldingRange", &a.folding, &b.folding),
+        ("textDocument/diagnostic", &a.diag_pull, &b.diag_pull),
+    ] {
+        if x != y {
+            return Err(format!(
+                "server text diverged from the editor's: {what} of the edited document differs from the same request on a freshly opened copy of the editor's buffer: {}\n  editor buffer: {:?}",
+                first_diff(x, y),
+                clip(&buf, 300)
+            ));
+        }
+        if x.get("$error").is_some() {
+            probe.label(format!("rpc-error:{what}"));
+        }
+    }
+    check_absolute(&buf, &b, probe)?;
+    Ok(())
+}
+
 fn run(ctx: &mut RunCtx) {
-    ctx.inconclusive("check not built yet");
+    let tier = ctx.tier;
+    let tag = format!("c14-w{}", ctx.worker);
+    let env = Env {
+        pool: Pool::new(StartOpts::plain(&tag)),
+        pool_b: (tier == Tier::Thorough).then(|| Pool::new(StartOpts::plain(&format!("{tag}-b")))),
+        worker: ctx.worker,
+        counter: Cell::new(0),
+    };
+    if !lspc::lsp_bin().is_file() {
+        ctx.inconclusive(format!(
+            "trust-lsp binary not found at {} (build it: cd /repo && CARGO_TARGET_DIR=/verif/harness/target-repo cargo build --offline -p trust-lsp --bin trust-lsp)",
+            lspc::lsp_bin().display()
+        ));
+        return;
+    }
+
+    ctx.search(
+        "history",
+        (tape_strategy(260), tape_strategy(700)).prop_map(|(t, h)| case_from_tapes(&t, &h)),
+        tier.pick(2_000, 60_000),
+        |case: &Case, probe| check_case(case, probe, &env),
+    );
+
+    for p in [Some(&env.pool), env.pool_b.as_ref()].into_iter().flatten() {
+        if let Some(why) = p.infra() {
+            ctx.inconclusive(format!("LSP infrastructure failure, remaining cases skipped: {why}"));
+        }
+        p.shutdown();
+    }
+    ctx.note(format!(
+        "server processes started by worker {}: {}",
+        ctx.worker,
+        env.pool.starts.get() + env.pool_b.as_ref().map(|p| p.starts.get()).unwrap_or(0)
+    ));
 }
